@@ -31,7 +31,7 @@ STMT_GOALS = ["z = ${A}  # ${B}", "h('${A}')\nh(${A})", "z = ${A}", "h(${A})\nh(
 
 
 def wildcards_of(user):
-    return list(dict.fromkeys(re.findall(r"\$\{([^}\s$]*)\}", user)))
+    return list(dict.fromkeys(t for v, t in c19.cut_template(user) if v))
 
 
 def gen_goal(rng, case):
@@ -57,51 +57,8 @@ def gen_goal(rng, case):
 
 
 def goal_pieces(goal):
-    """[(is_var, text)] -- the harness's own cutting of ${name}: occurrences inside a string literal or a
-    comment are literal text (rope's CodeTemplate skips them with a regex; this is a plain scanner; goals
-    generated here use simple one-line '...' / "..." strings without escapes)."""
-    out = []
-    lit = []
-    i, n = 0, len(goal)
-    quote = None
-    comment = False
-    while i < n:
-        ch = goal[i]
-        if comment:
-            if ch == "\n":
-                comment = False
-            lit.append(ch)
-            i += 1
-        elif quote:
-            if ch == quote:
-                quote = None
-            lit.append(ch)
-            i += 1
-        elif ch in "'\"":
-            quote = ch
-            lit.append(ch)
-            i += 1
-        elif ch == "#":
-            comment = True
-            lit.append(ch)
-            i += 1
-        elif goal.startswith("${", i):
-            m = re.match(r"\$\{([^}\s$]*)\}", goal[i:])
-            if m:
-                if lit:
-                    out.append((False, "".join(lit)))
-                    lit = []
-                out.append((True, m.group(1)))
-                i += m.end()
-            else:
-                lit.append(ch)
-                i += 1
-        else:
-            lit.append(ch)
-            i += 1
-    if lit:
-        out.append((False, "".join(lit)))
-    return out
+    """[(is_var, text)]: see c19.cut_template"""
+    return c19.cut_template(goal)
 
 
 def goal_model(goal):
@@ -335,10 +292,10 @@ def oracle(case, code, text, tree):
     try:
         got = ast.parse(new)
     except SyntaxError as e:
-        cat = classify(case, tree, pat, goal_ast, exact, instances, is_stmt, expected, shape, code)
+        cat = classify(case, tree, pat, goal_ast, exact, instances, is_stmt, expected, shape, code, None, new)
         return (cat, "restructured module does not parse (%s): %r" % (e.msg, new[:160]))
     if not expected.is_(got):
-        cat = classify(case, tree, pat, goal_ast, exact, instances, is_stmt, expected, shape, code, got)
+        cat = classify(case, tree, pat, goal_ast, exact, instances, is_stmt, expected, shape, code, got, new)
         what = "identity goal changes the syntax tree" if case["goal"] == case["user"] else \
             "result is not the module with each instance replaced by the instantiated goal"
         return (cat, "%s: %r" % (what, new[:200]))
@@ -347,7 +304,7 @@ def oracle(case, code, text, tree):
     return None
 
 
-def classify(case, tree, pat, goal_ast, exact, instances, is_stmt, expected, shape, code, got=None):
+def classify(case, tree, pat, goal_ast, exact, instances, is_stmt, expected, shape, code, got=None, new_text=None):
     """structural reason of a failed tree comparison; 'meaning' = none of the known ones"""
     src = case["source"]
     if shape:
@@ -383,9 +340,17 @@ def classify(case, tree, pat, goal_ast, exact, instances, is_stmt, expected, sha
             # the legacy traversal-order loop (before /repo 220be77) would replace another set of instances
             if got is not None and exp2.is_(got):
                 return "stmt-order"
-    safe = safe_rewrite(case, tree, pat, exact, is_stmt)
-    if safe is not None and expected.is_(safe):
-        return "precedence"
+    # missing parenthesisation: the harness's own rewriting with every inserted piece parenthesised is right,
+    # and rope's text is that rewriting up to parentheses and layout -- anything else wrong with the text
+    # (other regions replaced, other text inserted) is not this finding
+    safe_text = safe_rewrite_text(case, tree, pat, exact, is_stmt)
+    if safe_text is not None and new_text is not None:
+        try:
+            safe = ast.parse(safe_text)
+        except SyntaxError:
+            safe = None
+        if safe is not None and expected.is_(safe) and modulo_parens(safe_text) == modulo_parens(new_text):
+            return "precedence"
     return "meaning"
 
 
@@ -409,8 +374,25 @@ def traversal_windows(tree, pat, exact):
 
 
 def safe_rewrite(case, tree, pat, exact, is_stmt, only=None):
-    """the harness's own text-level rewriting in which every inserted piece of code is parenthesised;
-    returns the parsed result or None"""
+    """the harness's own text-level rewriting (positional substitution at the goal's placeholders) in which
+    every inserted piece of code is parenthesised; returns the parsed result or None"""
+    txt = safe_rewrite_text(case, tree, pat, exact, is_stmt, only)
+    if txt is None:
+        return None
+    try:
+        return ast.parse(txt)
+    except SyntaxError:
+        return None
+
+
+def modulo_parens(text):
+    """text with parentheses dropped and lines stripped: what may differ between rope's result and the
+    parenthesised rewriting when the only thing wrong is missing parenthesisation"""
+    lines = [ln.strip() for ln in text.replace("(", "").replace(")", "").split("\n")]
+    return "\n".join(" ".join(ln.split()) for ln in lines if ln)
+
+
+def safe_rewrite_text(case, tree, pat, exact, is_stmt, only=None):
     src = case["source"]
     pieces = goal_pieces(case["goal"])
     try:
@@ -431,7 +413,7 @@ def safe_rewrite(case, tree, pat, exact, is_stmt, only=None):
                 out.append(src[pos:s] + txt)
                 pos = e
             out.append(src[pos:])
-            return ast.parse("".join(out))
+            return "".join(out)
         inst = {id(nodes[0]): m for (_s, nodes, m) in c19.bf_find(tree, pat, exact)}
 
         def text_of(node, force=False):
@@ -457,8 +439,8 @@ def safe_rewrite(case, tree, pat, exact, is_stmt, only=None):
                 pos = r.region[1]
             out.append(src[pos:e])
             return "".join(out)
-        return ast.parse(text_of(tree))
-    except (SyntaxError, KeyError, AttributeError, RecursionError):
+        return text_of(tree)
+    except (KeyError, AttributeError, RecursionError):
         return None
 
 
@@ -513,7 +495,7 @@ def gen_rcases(ctx, n_modules, per_module):
             if p is None:
                 continue
             case = {"kind": "restructure", "source": src, "user": p["user"], "model": p["model"], "exact": p["exact"],
-                    "driver": "restructure" if rng.random() < 0.75 else "replace"}
+                    "driver": "restructure" if rng.random() < 0.75 else "replace", "pkind": p["kind"]}
             case["goal"] = gen_goal(rng, case)
             cases.append(case)
     return cases
@@ -598,6 +580,11 @@ def run(ctx):
         ctx.count("restructure:" + {0: "unchanged", 1: "changed", 2: "BadNameInCheckError"}[r["code"]])
         if case["goal"] == case["user"]:
             ctx.count("restructure:identity_goal")
+        if case.get("pkind") == "run-window":
+            ctx.count("restructure:run_window_pattern")
+        if changed and any("${" in t for v, t in goal_pieces(r["text"]) if not v and ("'" in t or '"' in t)) \
+                and len(wildcards_of(case["goal"])) >= 2:
+            ctx.count("restructure:result_keeps_placeholder_like_string")
         if r["oracle"] and r["oracle"][1] is None:
             ctx.count("restructure:" + r["oracle"][0])
         elif r["oracle"]:
